@@ -48,7 +48,10 @@ def gen_type(r, depth, maxd, in_record=False, field=False):
     if k == "list":
         inner = gen_type(r, depth + 1, maxd, in_record)
         # "la": the Form asks for a ListArray64 (starts/stops) instead of a ListOffsetArray64 - another builder class
-        return ["list", inner] + (["la"] if r.random() < 0.25 else [])
+        # a third element names the builder class, a fourth the index width the Form asks for
+        kind = "la" if r.random() < 0.25 else "lo"
+        w = r.choice(["i64", "i64", "i64", "i32", "u32"])
+        return ["list", inner] + ([kind, w] if (kind, w) != ("lo", "i64") else [])
     if k == "reg":
         return ["reg", gen_type(r, depth + 1, maxd, in_record), r.choice([1, 2, 3])]
     if k == "opt":
@@ -56,7 +59,7 @@ def gen_type(r, depth, maxd, in_record=False, field=False):
         t = gen_type(r, depth + 1, maxd, in_record)
         while t[0] in ("opt", "union", "unmasked", "idx") or "null" in first_cmds(t):
             t = gen_type(r, depth + 1, maxd, in_record)
-        return ["opt", t]
+        return ["opt", t] + (["i32"] if r.random() < 0.3 else [])
     if k == "unmasked":
         t = gen_type(r, depth + 1, maxd, in_record)
         while t[0] in ("opt", "union", "unmasked", "idx"):
@@ -64,12 +67,12 @@ def gen_type(r, depth, maxd, in_record=False, field=False):
         return ["unmasked", t]
     if k == "idx":
         # IndexedArray over a numeric leaf; "categorical": equal values share one content item
-        return ["idx", ["num", r.choice(["bool", "int64", "float64"])], r.random() < 0.6, r.choice(["i32", "i64"])]
+        return ["idx", ["num", r.choice(["bool", "int64", "float64"])], r.random() < 0.6, r.choice(["i32", "i64", "u32"])]
     if k == "rec":
         n = r.choice([1, 2, 2, 3])
         return ["rec", [[key, gen_type(r, depth + 1, maxd, True, True)] for key in r.sample(KEYS, n)]]
     leaves = r.sample(LEAVES, r.choice([2, 2, 3]))
-    return ["union", [["num", dt] for dt in leaves]]
+    return ["union", [["num", dt] for dt in leaves]] + ([r.choice(["i32", "u32"])] if r.random() < 0.3 else [])
 
 
 def first_cmds(t):
@@ -99,24 +102,31 @@ def form_of(t):
                 "content": {"class": "NumpyArray", "primitive": "uint8", "parameters": {"__array__": "char"}},
                 "parameters": {"__array__": "string"}}
     if k == "list":
+        w = t[3] if len(t) > 3 else "i64"
+        suffix = {"i64": "64", "i32": "32", "u32": "U32"}[w]
         if len(t) > 2 and t[2] == "la":
-            return {"class": "ListArray64", "starts": "i64", "stops": "i64", "content": form_of(t[1])}
-        return {"class": "ListOffsetArray64", "offsets": "i64", "content": form_of(t[1])}
+            return {"class": "ListArray" + suffix, "starts": w, "stops": w, "content": form_of(t[1])}
+        return {"class": "ListOffsetArray" + suffix, "offsets": w, "content": form_of(t[1])}
     if k == "reg":
         return {"class": "RegularArray", "size": t[2], "content": form_of(t[1])}
     if k == "opt":
+        if len(t) > 2 and t[2] == "i32":
+            return {"class": "IndexedOptionArray32", "index": "i32", "content": form_of(t[1])}
         return {"class": "IndexedOptionArray64", "index": "i64", "content": form_of(t[1])}
     if k == "unmasked":
         return {"class": "UnmaskedArray", "content": form_of(t[1])}
     if k == "idx":
-        f = {"class": "IndexedArray64" if t[3] == "i64" else "IndexedArray32", "index": t[3], "content": form_of(t[1])}
+        f = {"class": {"i64": "IndexedArray64", "i32": "IndexedArray32", "u32": "IndexedArrayU32"}[t[3]], "index": t[3],
+             "content": form_of(t[1])}
         if t[2]:
             f["parameters"] = {"__array__": "categorical"}
         return f
     if k == "rec":
         return {"class": "RecordArray", "contents": {key: form_of(sub) for key, sub in t[1]}}
     if k == "union":
-        return {"class": "UnionArray8_64", "tags": "i8", "index": "i64", "contents": [form_of(sub) for sub in t[1]]}
+        w = t[2] if len(t) > 2 else "i64"
+        return {"class": {"i64": "UnionArray8_64", "i32": "UnionArray8_32", "u32": "UnionArray8_U32"}[w], "tags": "i8", "index": w,
+                "contents": [form_of(sub) for sub in t[1]]}
     raise AssertionError(t)
 
 
